@@ -741,6 +741,115 @@ def r09e(ctx):
     ctx.floor('R09e', 'decided op tokens', n_ob, 25)
 
 
+class _NoValue(Exception):
+    pass
+
+
+def concrete(t: Term, env: Dict[Term, object]):
+    """Value of an integer / shape term under concrete bindings of some of its subterms."""
+    import math
+    if t in env:
+        return env[t]
+    k = t[0]
+    if k == 'const':
+        return t[1]
+    if k == 'tuple' or k == 'list':
+        return tuple(concrete(x, env) for x in t[1])
+    if k == 'ifexp':
+        return concrete(t[2], env) if concrete(t[1], env) else concrete(t[3], env)
+    if k == 'cmp':
+        a, b = concrete(t[2], env), concrete(t[3], env)
+        return {'==': a == b, '!=': a != b, '<': a < b, '<=': a <= b, '>': a > b,
+                '>=': a >= b, 'is': a is b, 'is not': a is not b}[t[1]]
+    if k == 'isnone':
+        return concrete(t[1], env) is None
+    if k == 'bin' and t[1] in ('+', '-', '*', '//', '%'):
+        a, b = concrete(t[2], env), concrete(t[3], env)
+        return {'+': lambda: a + b, '-': lambda: a - b, '*': lambda: a * b,
+                '//': lambda: a // b, '%': lambda: a % b}[t[1]]()
+    if k == 'un' and t[1] in ('-', 'neg'):
+        return -concrete(t[2], env)
+    if k == 'sub':
+        base = concrete(t[1], env)
+        if t[2][0] == 'slice':
+            lo, hi, st = (concrete(x, env) for x in t[2][1:4])
+            return base[lo:hi:st]
+        return base[concrete(t[2], env)]
+    if k == 'call':
+        c = callee(t)
+        args = [concrete(a, env) for a in t[2]]
+        if c == 'math.prod':
+            return math.prod(args[0])
+        if c in ('builtins.int', 'builtins.float'):
+            return int(args[0])
+        if c == 'builtins.len':
+            return len(args[0])
+        if c in ('builtins.tuple', 'builtins.list'):
+            return tuple(args[0])
+    raise _NoValue(show(t)[:80])
+
+
+def r09g(ctx):
+    """"Their product with the spatial size across flatten": the multiplier that
+    add_features_calculator hands to FlattenFeaturesCalculator is evaluated on concrete input
+    shapes and flatten / squeeze arguments and compared with the size the op really gives the
+    features axis: flatten(1, e) of (N, C, d2, ..) has C * prod(d2 .. d_e) features, squeeze(1)
+    of (N, 1, d2, ..) has d2."""
+    import math
+    repo = ctx.repo
+    afc = repo.fn('add_features_calculator')
+    sites = {}
+    for p in paths(repo, afc):
+        for e in p.calls():
+            if not (callee(e.data[0]) or '').endswith('FlattenFeaturesCalculator') or \
+                    len(e.data[0][2]) < 2:
+                continue
+            key = next((a[2][1] for a, v in path_guards(p, e)
+                        if v and a[0] == 'sub' and a[2][0] == 'const' and a[1][0] == 'attr' and
+                        a[1][2] == 'meta' and a[2][1] in ('flatten', 'squeeze')), None)
+            if key is not None:
+                sites.setdefault(key, (e.data[0][2][1], e.node))
+    ctx.floor('R09g', 'FlattenFeaturesCalculator creation cases', len(sites), 2)
+
+    def bindings(t, shape, argvals):
+        env = {}
+        for x in subterms(t):
+            if x[0] == 'attr' and x[2] == 'shape' and x not in env:
+                env[x] = shape
+            if x[0] == 'call' and (callee(x) or '').endswith('try_get_args') and len(x[2]) >= 4 \
+                    and x[2][3][0] == 'const' and x[2][3][1] in argvals:
+                env[x] = argvals[x[2][3][1]]
+        return env
+    cases = {
+        'flatten': [((2, 3, 5, 7), {'start_dim': 1, 'end_dim': -1}), ((2, 3, 5, 7), {'start_dim': 1, 'end_dim': 3}),
+                    ((2, 3, 5, 7), {'start_dim': 1, 'end_dim': 2}), ((2, 3, 5, 7), {'start_dim': 1, 'end_dim': -2}),
+                    ((2, 3, 5), {'start_dim': 1, 'end_dim': -1}), ((2, 3, 5), {'start_dim': 1, 'end_dim': 2})],
+        'squeeze': [((2, 1, 5, 7), {'dim': 1}), ((2, 1, 5), {'dim': 1})],
+    }
+    for key, (t, node) in sorted(sites.items()):
+        bad = None
+        for shape, av in cases[key]:
+            if key == 'flatten':
+                e_ = av['end_dim'] % len(shape)
+                want = math.prod(shape[2:e_ + 1])
+            else:
+                want = shape[2]
+            try:
+                got = concrete(t, bindings(t, shape, av))
+            except (_NoValue, TypeError, IndexError, KeyError) as ex:
+                raise AnalysisError(f'R09g: multiplier of the {key} case not evaluable: {ex}')
+            if got != want:
+                bad = (shape, av, got, want)
+                break
+        ctx.ob('R09g', f'add_features_calculator {key} multiplier', bad is None,
+               f'features x spatial size on {len(cases[key])} shapes / arguments' if bad is None
+               else f'for an input of shape {bad[0]} and {key}({", ".join(f"{k}={v}" for k, v in bad[1].items())}) '
+               f'the calculator multiplies the producer\'s features by {bad[2]} but the op gives '
+               f'the features axis {bad[3]} x as many: the consumer reports, is charged for and is '
+               f'exported with a width that is not the one of the tensor feeding it (export '
+               f'fails with a mask / weight shape mismatch)', where(afc, node))
+
+
 def r09f(ctx, rule='R09f'):
     """The graph classification and the layer classes agree on what a depthwise layer is: a
     PIT layer class whose export() has a depthwise branch (it re-creates the layer with
@@ -794,6 +903,7 @@ def run(ctx):
     r09d(ctx)
     r09e(ctx)
     r09f(ctx)
+    r09g(ctx)
     ctx.assume('torch.cat keeps the order of its inputs; buffers registered under distinct names '
                'are distinct state')
 
